@@ -292,6 +292,8 @@ impl World {
                 wake(&self.sh);
             }
             "s" | "Z" => {}
+            // wall-clock time passes (the tokio clock is paused and does not move)
+            "W" => std::thread::sleep(std::time::Duration::from_millis(rest.parse().unwrap())),
             "q" | "b" | "a" | "y" => {
                 let f: Vec<&str> = rest.splitn(3, ':').collect();
                 let rid: usize = f[0].parse().unwrap();
@@ -919,6 +921,54 @@ pub fn gen_request_burst(r: &mut Rng, n: usize) -> String {
     })
 }
 
+/// a reply that takes longer than the 100 ms re-idle window in WALL-CLOCK time (`W<ms>` really sleeps:
+/// code that measures with `std::time::Instant` does not see the paused tokio clock), then notifications
+/// and a further request: the client must idle again and carry on
+pub fn gen_slow_reply(r: &mut Rng, prop: &str) -> String {
+    let sel_seed = r.next() % 1_000_000;
+    let rt = runtime(sel_seed);
+    rt.block_on(async {
+        let mut w = World::new(None, sel_seed);
+        let mut sv = SimServer::default();
+        let mut actions: Vec<String> = Vec::new();
+        async fn act(w: &mut World, sv: &mut SimServer, actions: &mut Vec<String>, a: String) {
+            let seg = w.act(&a).await;
+            actions.push(a);
+            for p in seg.split('&') {
+                if let Some(h) = p.strip_prefix("w=") {
+                    sv.feed(&unhex(h));
+                }
+            }
+        }
+        async fn deliver(w: &mut World, sv: &mut SimServer, actions: &mut Vec<String>) {
+            if !sv.out.is_empty() {
+                let v: Vec<u8> = sv.out.drain(..).collect();
+                act(w, sv, actions, format!("d{}", hex(&v))).await;
+            }
+        }
+        act(&mut w, &mut sv, &mut actions, format!("d{}", hex(b"OK MPD 0.23.5\n"))).await;
+        act(&mut w, &mut sv, &mut actions, "t50".to_string()).await;
+        act(&mut w, &mut sv, &mut actions, format!("q1:{}", cmd_spec("x", &[format!("slow{}", r.below(100))]))).await;
+        deliver(&mut w, &mut sv, &mut actions).await; // reply to noidle
+        act(&mut w, &mut sv, &mut actions, "t10".to_string()).await;
+        // the request is on the wire; the server takes its time
+        act(&mut w, &mut sv, &mut actions, format!("W{}", 130 + r.below(40))).await;
+        deliver(&mut w, &mut sv, &mut actions).await;
+        act(&mut w, &mut sv, &mut actions, "t100".to_string()).await;
+        act(&mut w, &mut sv, &mut actions, "t100".to_string()).await;
+        sv.change("player");
+        act(&mut w, &mut sv, &mut actions, format!("s{}", hex(b"player"))).await;
+        deliver(&mut w, &mut sv, &mut actions).await;
+        act(&mut w, &mut sv, &mut actions, "t100".to_string()).await;
+        act(&mut w, &mut sv, &mut actions, format!("q2:{}", cmd_spec("x", &["after".to_string()]))).await;
+        for _ in 0..6 {
+            deliver(&mut w, &mut sv, &mut actions).await;
+            act(&mut w, &mut sv, &mut actions, "t100".to_string()).await;
+        }
+        format!("loop.{}.{} ~ {}", prop, sel_seed, actions.join(","))
+    })
+}
+
 /// one schedule, generated online; returns the op line
 pub fn gen_schedule(r: &mut Rng, g: &GenCfg, steps: usize, prop: &str, backpressure: bool) -> String {
     let sel_seed = r.next() % 1_000_000;
@@ -1306,6 +1356,9 @@ pub fn gen(cfg: &Cfg) -> Vec<String> {
         }
         if cfg.prop == "C01" && i == 0 {
             ops.push(gen_request_burst(&mut r, 140));
+        }
+        if matches!(cfg.prop.as_str(), "C01" | "C05") && i < 2 {
+            ops.push(gen_slow_reply(&mut r, &cfg.prop));
         }
         // the same kind of schedule over a transport with write back-pressure (C01, C05, C13: the
         // properties about what is written and who is answered); oracle-only, see Driver/Loop.lean
